@@ -109,6 +109,10 @@ fn main() -> Result<()> {
             let tag = arg_value(&args, "--tag").unwrap_or("n".into());
             r#gen::signet_fetch(seed * 1000 + i, &format!("{tag}x{i}"), blocks, &flags)
           }
+          "dup" => {
+            let tag = arg_value(&args, "--tag").unwrap_or("d".into());
+            r#gen::duplicates(seed * 1000 + i, &format!("{tag}x{i}"), blocks, &flags)
+          }
           "runes" => {
             let tag = arg_value(&args, "--tag").unwrap_or("u".into());
             r#gen::runes(seed * 1000 + i, &format!("{tag}x{i}"), blocks, &flags)
